@@ -12,7 +12,7 @@ RULE = ('one run = one adversarial connection (garbage / mutated / truncated req
         'one real executor, concurrent and subsequent; each canary is first run alone in a twin world and its '
         'transcripts compared; non-trivial = the adversary did something other than a clean exchange while a '
         'canary was in flight or before a later canary; distinct = distinct event-log digests')
-PROBES = ['adv_garbage', 'adv_truncated', 'adv_nonutf8', 'adv_bad_upstream', 'adv_plugin_raises',
+PROBES = ['adv_upstream_gone_with_output_pending', 'adv_garbage', 'adv_truncated', 'adv_nonutf8', 'adv_bad_upstream', 'adv_plugin_raises',
           'adv_faults', 'adv_reverse', 'adv_web', 'adv_tunnel', 'canary_concurrent', 'canary_subsequent',
           'worker_survived_task_exception', 'blocking_connect_timeout']
 COMPONENTS = {
@@ -133,6 +133,11 @@ def run_one(tape: Any, cfg: Dict[str, Any], forbid: FrozenSet[str] = frozenset()
             w.probe('canary_concurrent' if starts[k] < 1 else 'canary_subsequent')
         # -- adversary ----------------------------------------------------------------
         arole = ['forward', 'tunnel', 'web', 'reverse'][tape.draw(4, 'arole')]
+        # archetype: a well-formed exchange whose client reads slowly or not at all while the upstream delivers a large
+        # response and goes away -- the adversary then lingers with output pending while canaries come and go
+        slow_reader = g.feature('adv_slow_reader', 0.15)
+        if slow_reader:
+            arole = ['forward', 'reverse'][tape.draw(2, 'sr-role')]
         w.probe({'forward': 'adv_bad_upstream', 'tunnel': 'adv_tunnel', 'web': 'adv_web', 'reverse': 'adv_reverse'}[arole])
         faults = scen.setup_faults(w, tape, {
             'send': ['ECONNRESET', 'EPIPE', 'ETIMEDOUT', 'EHOSTUNREACH', 'ENOBUFS', 'short', 'eagain'],
@@ -140,11 +145,17 @@ def run_one(tape: Any, cfg: Dict[str, Any], forbid: FrozenSet[str] = frozenset()
             'connect': ['ECONNREFUSED', 'ETIMEDOUT', 'EHOSTUNREACH', 'ENETUNREACH', 'ENOBUFS'],
             'getaddrinfo': ['EAI_NONAME', 'EAI_AGAIN'],
         }, p_on=0.5, budget=6)
+        if slow_reader:
+            # this archetype is about a long-lived, well-behaved but slow connection: no injected errors
+            w.fault_p = 0.0
+            faults = False
         if faults:
             w.probe('adv_faults')
         # the adversary's upstream
         up_mode = ['accept', 'refuse', 'blackhole', 'hostunreach', 'netunreach', 'reset', 'noresolve',
-                   'stall', 'garbage', 'close_mid'][tape.draw(10, 'upmode')]
+                   'stall', 'garbage', 'close_mid', 'big_close'][tape.draw(11, 'upmode')]
+        if slow_reader:
+            up_mode = 'big_close'
         if up_mode == 'blackhole' and not g.note('blocking_connect_timeout'):
             up_mode = 'refuse'
         if up_mode == 'blackhole':
@@ -157,6 +168,12 @@ def run_one(tape: Any, cfg: Dict[str, Any], forbid: FrozenSet[str] = frozenset()
                 return [('wait_eof',)]
             if up_mode == 'garbage':
                 return [('wait_rx', lambda p: len(p.rx) > 0), ('send', b'\x00\xffnot http at all\r\n\r\n' * 3, 'dribble', 16), ('close',)]
+            if up_mode == 'big_close':
+                # a large response, then the upstream goes away while the proxy may still hold output for a slow client
+                w.probe('adv_upstream_gone_with_output_pending')
+                return [('wait_rx', lambda p: len(p.rx) > 0),
+                        ('send', b'HTTP/1.1 200 OK\r\nContent-Length: 30000\r\n\r\n' + b'z' * 30000, 'burst'),
+                        [('close',), ('reset',)][tape.draw(2, 'bigkind')]]
             if up_mode == 'close_mid':
                 return [('wait_rx', lambda p: len(p.rx) > 0),
                         ('send', b'HTTP/1.1 200 OK\r\nContent-Length: 100\r\n\r\npartial', 'burst'),
@@ -174,6 +191,8 @@ def run_one(tape: Any, cfg: Dict[str, Any], forbid: FrozenSet[str] = frozenset()
         host = b'adv.example' if up_mode != 'noresolve' else b'nosuch.example'
         # the adversary's client bytes
         akind = ['valid', 'garbage', 'truncated', 'nonutf8', 'mutated'][tape.weighted([3, 2, 3, 2, 2], 'akind')]
+        if slow_reader:
+            akind = 'valid'
         if arole == 'forward':
             base = b'GET http://' + host + b'/a HTTP/1.1\r\nHost: ' + host + b'\r\nX-A: 1\r\n\r\n'
         elif arole == 'tunnel':
@@ -216,6 +235,9 @@ def run_one(tape: Any, cfg: Dict[str, Any], forbid: FrozenSet[str] = frozenset()
             cutoff = tape.draw(len(data) + 1, 'cutoff')
             w.probe('adv_truncated')
         ending = ['close', 'reset', 'shut_wr', 'hang', 'follow'][tape.draw(5, 'ending')]
+        if slow_reader:
+            cutoff = len(data)
+            ending = 'hang'
         ascript: List[Any] = [('sleep', [0.0, 0.01, 0.3][tape.draw(3, 'astart')]), ('connect',)]
         mode = ['burst', 'dribble'][tape.draw(2, 'amode')]
         ascript.append(('send', data[:cutoff], mode, 16))
@@ -225,16 +247,20 @@ def run_one(tape: Any, cfg: Dict[str, Any], forbid: FrozenSet[str] = frozenset()
             p2 = [b'/radv', b'/radv2', b'/rnone'][tape.draw(3, 'rpath2')]
             ascript.append(('send', b'GET ' + p2 + b' HTTP/1.1\r\nHost: localhost\r\n\r\n', 'burst'))
         if ending in ('hang', 'follow'):
-            ascript.append(('sleep', [0.0, 0.5, 2.0][tape.draw(3, 'hang')]))
+            ascript.append(('sleep', [0.0, 0.5, 2.0, 15.0][tape.draw(4, 'hang') if not slow_reader else 2 + tape.draw(2, 'hang')]))
         if ending == 'shut_wr':
             ascript.append(('shut_wr',))
             ascript.append(('sleep', 1.0))
         ascript.append(('reset',) if ending == 'reset' else ('close',))
         adv = Peer(w, 'adversary', ascript, read_mode='chunky')
-        if tape.coin(0.3, 'adv-noread'):
+        if tape.coin(0.3 if up_mode != 'big_close' else 0.7, 'adv-noread'):
             adv.reading = False
-        adv.connect_fn = h.connector(cap_to_proxy=scen.pick_cap(tape, 16, 'acap1'),
-                                     cap_to_client=scen.pick_cap(tape, 16, 'acap2'), faultable=faults)
+        elif slow_reader:
+            adv.read_max = 64
+        acap1, acap2 = scen.pick_cap(tape, 16, 'acap1'), scen.pick_cap(tape, 16, 'acap2')
+        if slow_reader:
+            acap2 = min(acap2, 1024)        # the response must not fit into the client's receive queue
+        adv.connect_fn = h.connector(cap_to_proxy=acap1, cap_to_client=acap2, faultable=faults)
 
         # ---- run --------------------------------------------------------------------------
         w.settle(3.0, 200.0)
@@ -258,12 +284,14 @@ def run_one(tape: Any, cfg: Dict[str, Any], forbid: FrozenSet[str] = frozenset()
                                % (k, got['origin:' + k], ref['origin:' + k]))
                         break
             if not w.failures:
-                adv_last = adv.done_time if adv.done_time is not None else w.now
-                for c, st in zip(canaries, starts):
-                    if c.done_time is not None:
-                        lag = c.done_time - max(st, 0.0)
-                        if lag > 10.0 + 6.0 + (10.0 if up_mode == 'blackhole' and arole == 'reverse' else 0):
-                            w.fail('canary_starved', c.kind, '%s took %.1f virtual seconds' % (c.name, lag))
+                # no canary is held up longer than the blocking socket calls the adversary legitimately caused
+                blocked = getattr(h.thread, 'blocked_total', 0.0)
+                for k, c in enumerate(canaries):
+                    if c.done_time is not None and tcan[k].done_time is not None:
+                        extra = c.done_time - tcan[k].done_time
+                        if extra > blocked + 2.0:
+                            w.fail('canary_starved', c.kind, '%s completed %.1f virtual seconds later than alone; the worker spent '
+                                   '%.1f s in blocking socket calls (adversary %s/%s/%s)' % (c.name, extra, blocked, arole, akind, up_mode))
                             break
         survived = any(True for qn, t in w.long_tasks if False)
         res.nontrivial = (akind != 'valid' or up_mode != 'accept' or ending in ('reset',) or faults)
